@@ -3,6 +3,7 @@ CONSTANTS
   NB = 6
   EMAX = 3
   THS = {0, 1}
+  DropOddFinalBorder = FALSE
 INVARIANT GroupsPartition
 INVARIANT GroupsInternal
 INVARIANT GroupsBoundary
